@@ -169,6 +169,8 @@ class Ids:
             return g
         if rng is not None and rng.random() < 0.04:
             return 'g\u00e8ne%d' % self.n          # ids are arbitrary strings: not ASCII here
+        if rng is not None and rng.random() < 0.06:
+            return str(5000 + self.n)              # ... or purely numeric next to non-numeric ones
         return 'g%d' % self.n
     def hog(self):
         self.h += 1
@@ -216,7 +218,7 @@ def gen_lineage(rng, T, p, ids, P):
             subs.insert(rng.randint(0, len(subs)), ('ann', e))
     return ('grp', written, hid, label, subs)
 
-DEFAULT_P = dict(loss=0.25, dup=0.3, elide=0.5, subid=0.3, label=0.3, ann=0.25, loft=0.15, unary_trees=0.1, idless_top=0.08, species_split=0.1, dbsplit=0.1, unnamed_root=0.08, notes=0.12, wrap=0.1, latin1=0.1, subid_clash=0.15)
+DEFAULT_P = dict(loss=0.25, dup=0.3, elide=0.5, subid=0.3, label=0.3, ann=0.25, loft=0.15, unary_trees=0.1, idless_top=0.08, species_split=0.1, dbsplit=0.1, unnamed_root=0.08, notes=0.12, wrap=0.1, latin1=0.1, subid_clash=0.15, late_species=0.12, xref_is_other_id=0.2)
 
 def force_written(l):
     return ('grp', True) + tuple(l[2:])
@@ -658,6 +660,17 @@ def make_dataset(rng, T=None, naming=None, nfam=None, P=None, maxleaves=8, int_i
         gs = list(gs)
         rng.shuffle(gs)
         D.species.append((sub(T, t)[0], [(g, rand_xrefs(rng, g)) for g in gs]))
+    # a cross-reference value that happens to be the internal id of ANOTHER gene (numeric Entrez-style geneIds next to
+    # numeric internal ids)
+    allg_ = [g for _, gs in D.species for g, _ in gs]
+    if len(allg_) >= 2 and rng.random() < P.get('xref_is_other_id', 0.0):
+        si = rng.randrange(len(D.species))
+        if D.species[si][1]:
+            gi = rng.randrange(len(D.species[si][1]))
+            g0, xr0 = D.species[si][1][gi]
+            other = rng.choice([g for g in allg_ if g != g0])
+            gl = list(D.species[si][1]); gl[gi] = (g0, [(k, v) for k, v in xr0 if k != 'geneId'] + [('geneId', other)])
+            D.species[si] = (D.species[si][0], gl)
     for p, l, _ in D.families:
         D.groups += encode(T, naming, p, l)
     D.base_groups = list(D.groups)
@@ -675,6 +688,12 @@ def make_dataset(rng, T=None, naming=None, nfam=None, P=None, maxleaves=8, int_i
     D.meta['dbsplit'] = rng.random() < P.get('dbsplit', 0.0)
     D.meta['style'] = dict(dbsplit=D.meta['dbsplit'], notes=rng.random() < P.get('notes', 0.0), wrap=rng.random() < P.get('wrap', 0.0),
                            latin1=rng.random() < P.get('latin1', 0.0))
+    if rng.random() < P.get('late_species', 0.0):
+        refd = set(g for p_, l_, _ in D.families for g in genes_of(l_))
+        cand = [i for i, (_, gs) in enumerate(D.species) if not any(g in refd for g, _ in gs)]
+        if cand:
+            D.species.append(D.species.pop(rng.choice(cand)))          # D.species stays in file order
+            D.meta['style']['late_species'] = [len(D.species) - 1]
     return D
 
 def deep_chain_dataset(rng, depth=None):
@@ -849,11 +868,13 @@ def species_wrap(rng, D, prob=0.35):
         for e in es:
             if e[0] == 'ref' and e[1] in sp_of and rng.random() < prob:
                 name = sp_of[e[1]]
-                if rng.random() < 0.5:
+                r_ = rng.random()
+                if r_ < 0.5:
                     counter[0] += 1
                     g2 = 'ip%d' % counter[0]
                     extra.setdefault(name, []).append((g2, [('protId', 'P' + g2)]))
-                    inner = [('pg', None, [e, ('ref', g2, None)])]
+                    # in-paralogs inside a paralogGroup, or (a third of these) simply side by side
+                    inner = [('pg', None, [e, ('ref', g2, None)])] if r_ < 0.34 or in_pg else [e, ('ref', g2, None)]
                 else:
                     inner = [e]
                 out.append(('og', None, None, [('prop', 'TaxRange', name)] + inner))
@@ -867,6 +888,7 @@ def species_wrap(rng, D, prob=0.35):
     D.groups = [('og', g[1], g[2], rec(g[3], False)) if g[0] == 'og' else g for g in D.groups]
     D.species = [(name, genes + extra.pop(name, [])) for name, genes in D.species]    # (pop: a species may have two elements)
     D.families = []
+    (D.meta.get('style') or {}).pop('late_species', None)      # (genes were added: no species may come after the groups now)
     D.meta['species_level'] = counter[0] + 1
     return D
 
@@ -936,7 +958,15 @@ def orthoxml(species, groups, newlines=True, dbsplit=None, style=None):
         dbsplit = DBSPLIT[0] or bool(style.get('dbsplit'))
     s = '<?xml version="1.0" encoding="%s"?>' % ('ISO-8859-1' if style.get('latin1') else 'UTF-8') + nl
     s += '<orthoXML xmlns="http://orthoXML.org/2011/" version="0.3" origin="verif" originVersion="1">' + nl
-    for name, genes in species:
+    late = ''
+    for si, (name, genes) in enumerate(species):
+        if si in (style.get('late_species') or ()):
+            # this <species> element is written AFTER the <groups> section (none of its genes is referenced)
+            late += '<species name="%s" NCBITaxId="1"><database name="d" version="1"><genes>' % xml_escape(name) + nl
+            for gid, xr in genes:
+                late += '<gene id="%s"%s/>' % (xml_escape(gid), ''.join(' %s="%s"' % (k, xml_escape(v)) for k, v in xr)) + nl
+            late += '</genes></database></species>' + nl
+            continue
         blocks = [genes[:len(genes) // 2], genes[len(genes) // 2:]] if (dbsplit and len(genes) >= 2) else [genes]
         s += '<species name="%s" NCBITaxId="1">' % xml_escape(name)
         for bi, block in enumerate(blocks):
@@ -959,7 +989,7 @@ def orthoxml(species, groups, newlines=True, dbsplit=None, style=None):
             k = x.rfind('</orthologGroup>')
             x = x[:k] + note + x[k:]
         s += x + nl
-    s += '</groups>' + nl + '</orthoXML>' + nl
+    s += '</groups>' + nl + late + '</orthoXML>' + nl
     if style.get('wrap'):
         s = s.replace('" ', '"\n')
     return s
